@@ -1,12 +1,16 @@
 // C13 replayer: (a) forces every TLC-enumerated creator/worker interleaving of spec/ThreadLife.tla onto real
 // asl::Thread objects with the token-passing scheduler and compares finished()/effect after every step;
-// (b) runs parallel_for / ThreadGroup / parallel_invoke cases emitted by spec/ParFor.tla and compares the
-// per-index invocation counts with the specification's.
+// (b) runs parallel_for / nested parallel_for / ThreadGroup / parallel_invoke cases emitted by spec/ParFor.tla and
+// compares the per-index invocation counts with the specification's;
+// (c) forces every behaviour of spec/ThreadObjLife.tla (thread objects copied, restarted, destroyed; case kind "life")
+// onto heap-allocated asl::Thread objects: the creator executes the emitted operations, parks at a user point after
+// each, and finished() / the body counters of the live objects are compared with the specification after every step.
 #include <asl/Thread.h>
 #include <asl/Array.h>
 #include "vsched.h"
 #include "vrun.h"
 #include <new>
+#include <dirent.h>
 
 using namespace asl;
 using vrun::Outcome;
@@ -249,6 +253,315 @@ static Outcome runInvoke(const vj::Value& c)
 	return Outcome();
 }
 
+// number of OS threads of this process: a detached trampoline that is still returning (or a sanitizer report being
+// printed by it) is waited for before a case ends, so that whatever it does is attributed to this case
+static int taskCount()
+{
+	DIR* d = opendir("/proc/self/task");
+	if (!d) return -1;
+	int n = 0;
+	while (struct dirent* e = readdir(d)) if (e->d_name[0] != '.') n++;
+	closedir(d);
+	return n;
+}
+static void settle(int base)
+{
+	if (base < 0) return;
+	for (int k = 0; k < 10000 && taskCount() > base; k++) usleep(500);
+}
+
+// ---- (c) thread object life cycle (spec/ThreadObjLife.tla) --------------------------------------------
+struct LifeThread : public Thread
+{
+	volatile int* effect;
+	explicit LifeThread(volatile int* e) : effect(e) {}
+	void run() { (*effect)++; }
+};
+struct LifeObs
+{
+	Thread* obj[3];
+	bool alive[3];
+	bool holds[3]; // the object holds the handle of a thread that was not joined
+	volatile int eff[3];
+	const vj::Value* steps;
+	std::string err;
+};
+static void observeLife(int decision, void* arg)
+{
+	LifeObs& o = *(LifeObs*)arg;
+	if (!o.err.empty() || decision == 0) return;
+	size_t k = (size_t)decision - 1;
+	if (k >= o.steps->size()) return;
+	const vj::Value& e = (*o.steps)[k];
+	for (int x = 1; x <= 2; x++)
+	{
+		int wantFin = e["fin"][x - 1].i(), wantEff = e["eff"][x - 1].i();
+		char b[240];
+		if (o.alive[x] && wantFin >= 0 && (int)o.obj[x]->finished() != wantFin)
+		{
+			snprintf(b, sizeof b, "after step %zu (thread %d, %s): object %d finished()=%d, specification says %d",
+			         k + 1, e["t"].i(), e["op"].s().c_str(), x, (int)o.obj[x]->finished(), wantFin);
+			o.err = b;
+			return;
+		}
+		if (o.eff[x] != wantEff)
+		{
+			snprintf(b, sizeof b, "after step %zu (thread %d, %s): bodies run for object %d: %d, specification says %d",
+			         k + 1, e["t"].i(), e["op"].s().c_str(), x, (int)o.eff[x], wantEff);
+			o.err = b;
+			return;
+		}
+	}
+}
+static void aliasThreadObject(const void* from, const void* to)
+{
+	// the copy now holds the handle: the scheduler must know which logical thread a join through the copy waits for
+	vsched::Sched& S = vsched::S();
+	pthread_mutex_lock(&S.mu);
+	std::map<const volatile void*, int>::iterator it = S.threadOf.find(from);
+	if (it != S.threadOf.end()) S.threadOf[to] = it->second;
+	else S.threadOf.erase(to);
+	pthread_mutex_unlock(&S.mu);
+}
+// The same creator program once more without the scheduler and with bodies that take a while: what must hold without
+// any help from the serializing scheduler is that join() - also through a copy that received the handle - returns only
+// after the body completed (ThreadObjLife JoinAfterBody / HandleConserved), and the final observations.  An object that
+// the specification lets the creator destroy on the strength of finished() is destroyed after polling finished().
+struct SlowLifeThread : public Thread
+{
+	volatile int* effect;
+	explicit SlowLifeThread(volatile int* e) : effect(e) {}
+	void run() { usleep(400); (*effect)++; }
+};
+static bool waitUntil(volatile int* v, int want, int ms)
+{
+	for (int i = 0; i < ms * 10 && *v != want; i++) usleep(100);
+	return *v == want;
+}
+static Outcome runLifeFree(const vj::Value& c)
+{
+	const vj::Value& steps = c["steps"];
+	bool lambda = c["flavour"].s() == "lambda";
+	int baseTasks = taskCount();
+	Thread* obj[3] = { 0, 0, 0 };
+	bool alive[3] = { false, false, false }, holds[3] = { false, false, false };
+	int target[3] = { 0, 0, 0 };        // object the thread behind the held handle belongs to
+	bool pendingOn[3] = { false, false, false }; // a run that belongs to the object was not joined
+	volatile int eff[3] = { 0, 0, 0 };
+	std::string err;
+	if (!lambda) { obj[1] = new SlowLifeThread(&eff[1]); alive[1] = true; }
+	for (size_t i = 0; i < steps.size() && err.empty(); i++)
+	{
+		const vj::Value& e = steps[i];
+		if (e["t"].i() != 0) continue;
+		const std::string& op = e["op"].s();
+		int a = e["a"].i(), b = e["b"].i();
+		if (op == "start") { obj[a]->start(); holds[a] = true; target[a] = a; pendingOn[a] = true; }
+		else if (op == "ctor")
+		{
+			volatile int* ef = &eff[a];
+			obj[a] = new Thread([ef]() { usleep(400); (*ef)++; });
+			alive[a] = holds[a] = pendingOn[a] = true;
+			target[a] = a;
+		}
+		else if (op == "copy")
+		{
+			if (lambda) obj[b] = new Thread(*obj[a]);
+			else
+			{
+				SlowLifeThread* t = new SlowLifeThread(*(SlowLifeThread*)obj[a]);
+				t->effect = &eff[b];
+				obj[b] = t;
+			}
+			alive[b] = true;
+			holds[b] = holds[a];
+			target[b] = target[a];
+			holds[a] = false;
+		}
+		else if (op == "join") obj[a]->join();
+		else if (op == "joined")
+		{
+			int x = target[a];
+			holds[a] = false;
+			pendingOn[x] = false;
+			int wantEff = e["eff"][x - 1].i(), wantFin = e["fin"][x - 1].i();
+			if (eff[x] != wantEff)
+				err = "free-running: join() through object " + std::to_string(a) + " returned with " + std::to_string((int)eff[x]) + " completed bodies of object " + std::to_string(x) + ", specification says " + std::to_string(wantEff);
+			else if (alive[x] && wantFin >= 0 && (int)obj[x]->finished() != wantFin)
+				err = "free-running: after join() through object " + std::to_string(a) + " finished() of object " + std::to_string(x) + " is " + std::to_string((int)obj[x]->finished()) + ", specification says " + std::to_string(wantFin);
+		}
+		else if (op == "destroy")
+		{
+			if (pendingOn[a])
+			{
+				// the specification allowed this only because finished() had been seen: wait for that
+				for (int k = 0; k < 50000 && !obj[a]->finished(); k++) usleep(100);
+				if (!obj[a]->finished()) err = "free-running: finished() of object " + std::to_string(a) + " never became true";
+				pendingOn[a] = false;
+			}
+			alive[a] = false;
+			delete obj[a];
+			obj[a] = 0;
+		}
+	}
+	if (err.empty() && steps.size())
+	{
+		const vj::Value& e = steps[steps.size() - 1];
+		for (int x = 1; x <= 2 && err.empty(); x++)
+		{
+			int wantEff = e["eff"][x - 1].i(), wantFin = e["fin"][x - 1].i();
+			if (!waitUntil(&eff[x], wantEff, 5000))
+				err = "free-running: bodies run for object " + std::to_string(x) + ": " + std::to_string((int)eff[x]) + ", specification says " + std::to_string(wantEff);
+			else if (alive[x] && wantFin >= 0)
+			{
+				for (int k = 0; k < 50000 && (int)obj[x]->finished() != wantFin; k++) usleep(100);
+				if ((int)obj[x]->finished() != wantFin)
+					err = "free-running: at the end finished() of object " + std::to_string(x) + " is " + std::to_string((int)obj[x]->finished()) + ", specification says " + std::to_string(wantFin);
+			}
+		}
+	}
+	for (int x = 1; x <= 2; x++)
+		if (alive[x] && holds[x]) { obj[x]->join(); holds[x] = false; }
+	settle(baseTasks); // detached trampolines have returned
+	for (int x = 1; x <= 2; x++)
+		if (alive[x]) delete obj[x];
+	return err.empty() ? Outcome() : Outcome::fail("Thread life cycle: " + err);
+}
+
+static Outcome runLife(const vj::Value& c)
+{
+	const vj::Value& steps = c["steps"];
+	bool lambda = c["flavour"].s() == "lambda";
+	std::vector<int> plan;
+	for (size_t i = 0; i < steps.size(); i++) plan.push_back(steps[i]["t"].i());
+	int baseTasks = taskCount();
+	LifeObs L;
+	for (int x = 0; x < 3; x++) { L.obj[x] = 0; L.alive[x] = false; L.holds[x] = false; L.eff[x] = 0; }
+	L.steps = &steps;
+	if (!lambda) { L.obj[1] = new LifeThread(&L.eff[1]); L.alive[1] = true; }
+	static const int points[] = { vsched::SPIN, vsched::PRE_JOIN, vsched::PRE_FIN };
+	vsched::Sched& S = vsched::S();
+	S.observer = observeLife;
+	S.observerArg = &L;
+	vsched::begin(plan, points, 3);
+	vsched::userPoint(0);
+	std::string herr;
+	for (size_t i = 0; i < steps.size() && herr.empty(); i++)
+	{
+		const vj::Value& e = steps[i];
+		if (e["t"].i() != 0) continue;
+		const std::string& op = e["op"].s();
+		int a = e["a"].i(), b = e["b"].i();
+		if (op == "spun" || op == "joined" || op == "end") continue; // second halves of ctor / join / endwait
+		if (op == "start") { L.obj[a]->start(); L.holds[a] = true; }
+		else if (op == "ctor")
+		{
+			L.holds[a] = true;
+			void* mem = operator new(sizeof(Thread));
+			L.obj[a] = (Thread*)mem; // visible to the observer while the constructor is still spinning
+			L.alive[a] = true;
+			volatile int* eff = &L.eff[a];
+			new (mem) Thread([eff]() { (*eff)++; });
+		}
+		else if (op == "copy")
+		{
+			if (lambda) L.obj[b] = new Thread(*L.obj[a]);
+			else
+			{
+				LifeThread* t = new LifeThread(*(LifeThread*)L.obj[a]);
+				t->effect = &L.eff[b];
+				L.obj[b] = t;
+			}
+			L.alive[b] = true;
+			L.holds[b] = L.holds[a];
+			L.holds[a] = false;
+			aliasThreadObject(L.obj[a], L.obj[b]);
+		}
+		else if (op == "join") { L.obj[a]->join(); L.holds[a] = false; }
+		else if (op == "destroy")
+		{
+			L.alive[a] = false;
+			delete L.obj[a];
+			L.obj[a] = 0;
+		}
+		else if (op == "endwait") { vsched::joinPoint(-1); break; }
+		else herr = "harness: unknown life operation " + op;
+		vsched::userPoint((long)i + 1);
+	}
+	vsched::end();
+	S.observer = 0;
+	int mism = S.mismatches;
+	size_t pos = S.pos, want = S.plan.size();
+	// after the last step: everything that the specification constrains, read directly
+	std::string finalErr;
+	if (steps.size())
+	{
+		const vj::Value& e = steps[steps.size() - 1];
+		for (int x = 1; x <= 2; x++)
+		{
+			int wantFin = e["fin"][x - 1].i();
+			if (L.alive[x] && wantFin >= 0 && (int)L.obj[x]->finished() != wantFin)
+				finalErr = "at the end: object " + std::to_string(x) + " finished()=" + std::to_string((int)L.obj[x]->finished()) + ", specification says " + std::to_string(wantFin);
+			if (L.eff[x] != e["eff"][x - 1].i())
+				finalErr = "at the end: bodies run for object " + std::to_string(x) + ": " + std::to_string((int)L.eff[x]) + ", specification says " + std::to_string(e["eff"][x - 1].i());
+		}
+	}
+	for (int x = 1; x <= 2; x++)
+		if (L.alive[x])
+		{
+			if (L.holds[x]) L.obj[x]->join(); // (its thread has ended)
+			delete L.obj[x];
+		}
+	settle(baseTasks);
+	if (!herr.empty()) return Outcome::fail(herr);
+	if (!L.err.empty()) return Outcome::fail("Thread life cycle: " + L.err);
+	if (!finalErr.empty()) return Outcome::fail("Thread life cycle: " + finalErr);
+	if (mism) return Outcome::fail("Thread life cycle: schedule could not be followed (" + std::to_string(mism) + " decisions named a thread that was not enabled): the objects do not have the steps of ThreadObjLife.tla");
+	if (pos != want) return Outcome::fail("Thread life cycle: run ended after " + std::to_string(pos) + " of " + std::to_string(want) + " planned steps");
+	// programs that join through a copy: once more free-running (one interleaving per program is enough: the plan is ignored there)
+	bool copies = false, joins = false, first = true;
+	for (size_t i = 0; i < steps.size(); i++)
+	{
+		const std::string& op = steps[i]["op"].s();
+		if (op == "copy") copies = true;
+		if (op == "join") joins = true;
+		if (steps[i]["t"].i() != 0 && i + 1 < steps.size() && steps[i + 1]["t"].i() == 0 && steps[i + 1]["op"].s() != "joined" && steps[i + 1]["op"].s() != "spun" && steps[i + 1]["op"].s() != "end") first = false;
+	}
+	if (copies && joins && first) return runLifeFree(c);
+	return Outcome();
+}
+
+// ---- (b2) nested parallel_for ------------------------------------------------------------------------
+static Outcome runNest(const vj::Value& c)
+{
+	int a = c["a"].i(), b = c["b"].i(), n1 = c["n1"].i(), n2 = c["n2"].i();
+	AtomicCount* cnt = new AtomicCount[64];
+	volatile int bad = 0;
+	Thread::parallel_for(0, a, [&](int i) {
+		Thread::parallel_for(0, b, [&, i](int j) {
+			if (i < 0 || i > 7 || j < 0 || j > 7) bad = 1;
+			else ++cnt[8 * i + j];
+		}, n2);
+	}, n1);
+	std::vector<int> got(64), want(64, 0);
+	for (int k = 0; k < 64; k++) got[k] = (int)cnt[k];
+	delete[] cnt;
+	if (bad) return Outcome::fail("nested parallel_for invoked f with an index outside both ranges");
+	const vj::Value& exp = c["exp"];
+	for (size_t k = 0; k < exp.size(); k++) want[exp[k].i()]++;
+	for (int k = 0; k < 64; k++)
+		if (got[k] != want[k])
+		{
+			char m[200];
+			snprintf(m, sizeof m, "nested parallel_for(0,%d,..,%d){parallel_for(0,%d,..,%d)}: f(%d,%d) invoked %d time(s), specification says %d",
+			         a, n1, b, n2, k / 8, k % 8, got[k], want[k]);
+			return Outcome::fail(m);
+		}
+	Outcome o;
+	o.nontrivial = a > 0 && b > 0;
+	return o;
+}
+
 static Outcome runCase(const vj::Value& c)
 {
 	const std::string& k = c["k"].s();
@@ -257,6 +570,8 @@ static Outcome runCase(const vj::Value& c)
 	if (k == "pfor") return runPfor(c);
 	if (k == "group") return runGroup(c);
 	if (k == "invoke") return runInvoke(c);
+	if (k == "life") return runLife(c);
+	if (k == "nest") return runNest(c);
 	return Outcome::fail("harness: unknown case kind " + k);
 }
 
